@@ -58,7 +58,7 @@ theorem parseUsize_natTok {v : Nat} (h : v < usizeBound) : parseUsize (natTok v)
   exact parseUChars_toDigits h
 
 /-- a token without `#` -/
-def NoHash (t : String) : Prop := t.toList.contains '#' = false
+abbrev NoHash (t : String) : Prop := t.toList.contains '#' = false
 
 theorem natTok_noHash (v : Nat) : NoHash (natTok v) := by
   unfold NoHash natTok
@@ -78,6 +78,596 @@ theorem natTok_head (v : Nat) : ∃ c, (natTok v).toList.head? = some c ∧ c.is
     refine ⟨c, rfl, ?_⟩
     have hm : c ∈ Nat.toDigits 10 v := by rw [h]; simp
     exact Nat.isDigit_of_mem_toDigits (b := 10) (by decide) (by decide) hm
+
+/-! ## B. shape preservation -/
+
+theorem sized_setβ {nb : Nat} {m : Map Val} (h : Sized nb m) (i d v : Nat) :
+    Sized nb (m.setβ i d v) := by
+  refine ⟨h.npos, ?_, ?_, h.usz, h.asz⟩
+  · show (wr m.b i (wr (rd m.b i) d v)).size = nb
+    rw [size_wr]; exact h.rows
+  · intro j hj
+    show (rd (wr m.b i (wr (rd m.b i) d v)) j).size = m.n
+    rw [rd_wr]
+    split
+    · rename_i hc
+      rw [size_wr, hc.1]; exact h.row j hj
+    · exact h.row j hj
+
+theorem sized_setU {nb : Nat} {m : Map Val} (h : Sized nb m) (d : Nat) (v : Bool) :
+    Sized nb (m.setU d v) := by
+  refine ⟨h.npos, h.rows, h.row, ?_, h.asz⟩
+  show (wr m.u d v).size = m.n
+  rw [size_wr]; exact h.usz
+
+theorem sized_setA {nb : Nat} {m : Map Val} (h : Sized nb m) (s d : Nat) (v : Option Val) :
+    Sized nb (m.setA s d v) := by
+  refine ⟨h.npos, h.rows, h.row, h.usz, ?_⟩
+  intro t ht
+  have ht' : t < m.a.size := by
+    have : (m.setA s d v).a.size = m.a.size := by
+      show (wr m.a s (wr (rd m.a s) d v)).size = m.a.size
+      rw [size_wr]
+    omega
+  show m.n ≤ (rd (wr m.a s (wr (rd m.a s) d v)) t).size
+  rw [rd_wr]
+  split
+  · rename_i hc
+    rw [size_wr, hc.1]; exact h.asz t ht'
+  · exact h.asz t ht'
+
+theorem rd_replicate {α : Type} [Inhabited α] (k : Nat) (x : α) (i : Nat) (h : i < k) :
+    rd (Array.replicate k x) i = x := by
+  unfold rd
+  simp [Array.getD_eq_getD_getElem?, h]
+
+theorem sized_empty (ns n : Nat) (hn : 0 < n) : Sized 3 (Map.empty 3 ns n : Map Val) := by
+  refine ⟨hn, ?_, ?_, ?_, ?_⟩
+  · simp [Map.empty]
+  · intro i hi
+    show (rd (Array.replicate 3 (Array.replicate n 0)) i).size = n
+    rw [rd_replicate _ _ _ hi]; simp
+  · simp [Map.empty]
+  · intro s hs
+    have hs' : s < ns := by simpa [Map.empty] using hs
+    show n ≤ (rd ((Array.replicate ns (Array.replicate (n + 1) none)).setIfInBounds 0
+      (Array.replicate n none)) s).size
+    have := rd_wr (Array.replicate ns (Array.replicate (n + 1) (none : Option Val))) 0 s
+      (Array.replicate n none)
+    unfold wr at this
+    rw [this]
+    split
+    · simp
+    · rw [rd_replicate _ _ _ hs']; simp
+
+theorem okβ_of_sized {nb : Nat} {m : Map Val} (h : Sized nb m) {i d : Nat} (hi : i < nb) (hd : d < m.n) :
+    m.okβ i d = true := by
+  unfold Map.okβ
+  simp [h.rows, hi, h.row i hi, hd]
+
+theorem okU_of_sized {nb : Nat} {m : Map Val} (h : Sized nb m) {d : Nat} (hd : d < m.n) :
+    m.okU d = true := by
+  unfold Map.okU
+  simp [h.usz, hd]
+
+theorem okU_iff_of_sized {nb : Nat} {m : Map Val} (h : Sized nb m) (d : Nat) :
+    m.okU d = decide (d < m.n) := by
+  unfold Map.okU
+  simp [h.usz]
+
+theorem β_empty (ns n i d : Nat) : (Map.empty 3 ns n : Map Val).β i d = 0 := by
+  unfold Map.β
+  show rd (rd (Array.replicate 3 (Array.replicate n 0)) i) d = 0
+  by_cases hi : i < 3
+  · rw [rd_replicate _ _ _ hi]
+    by_cases hd : d < n
+    · rw [rd_replicate _ _ _ hd]
+    · rw [rd_oob]; rfl
+      simp; omega
+  · rw [rd_oob (Array.replicate 3 (Array.replicate n 0)) i (by simp; omega)]
+    rw [rd_oob]; rfl
+    show (#[] : Array Nat).size ≤ d
+    simp
+
+theorem unused_empty (ns n d : Nat) : (Map.empty 3 ns n : Map Val).unused d = false := by
+  unfold Map.unused
+  show rd (Array.replicate n false) d = false
+  by_cases hd : d < n
+  · rw [rd_replicate _ _ _ hd]
+  · rw [rd_oob]; rfl
+    simp; omega
+
+/-! ## C. the three loops of `build_2d_from_cmap_file` -/
+
+theorem atomically_setBetas {m : Map Val} (h : Sized 3 m) {d : Nat} (hd : d < m.n) (b0 b1 b2 : Nat) :
+    atomically (setBetas d b0 b1 b2) m =
+      (.ok (), ((m.setβ 0 d b0).setβ 1 d b1).setβ 2 d b2) := by
+  have h0 : m.okβ 0 d = true := okβ_of_sized h (by omega) hd
+  have h1 : m.okβ 1 d = true := okβ_of_sized h (by omega) hd
+  have h2 : m.okβ 2 d = true := okβ_of_sized h (by omega) hd
+  unfold atomically setBetas
+  simp [h0, h1, h2, Map.okβ_setβ]
+
+theorem β_setBetas {m : Map Val} (h : Sized 3 m) {d : Nat} (hd : d < m.n) (f : Nat → Nat) (i e : Nat) :
+    (((m.setβ 0 d (f 0)).setβ 1 d (f 1)).setβ 2 d (f 2)).β i e =
+      if i < 3 ∧ e = d then f i else m.β i e := by
+  have h0 : m.okβ 0 d = true := okβ_of_sized h (by omega) hd
+  have h1 : m.okβ 1 d = true := okβ_of_sized h (by omega) hd
+  have h2 : m.okβ 2 d = true := okβ_of_sized h (by omega) hd
+  simp only [Map.β_setβ, Map.okβ_setβ, h0, h1, h2, and_true]
+  by_cases he : d = e
+  · subst he
+    by_cases e0 : i = 0
+    · subst e0; simp
+    · by_cases e1 : i = 1
+      · subst e1; simp
+      · by_cases e2 : i = 2
+        · subst e2; simp
+        · have : ¬ i < 3 := by omega
+          simp [this, Ne.symm e0, Ne.symm e1, Ne.symm e2]
+  · have : ¬ e = d := fun x => he x.symm
+    simp [he, this]
+
+theorem betasLoop_ok (g : Nat → Nat → String) (f : Nat → Nat → Nat) :
+    ∀ (k d : Nat) (m : Map Val), Sized 3 m → d + k ≤ m.n →
+      (∀ i, i < 3 → ∀ e, d ≤ e → e < d + k → parseU32 (g i e) = some (f i e)) →
+      ∃ m', betasLoop d ((List.range' d k).map (g 0)) ((List.range' d k).map (g 1))
+              ((List.range' d k).map (g 2)) m = .ok m' ∧
+        Sized 3 m' ∧ m'.n = m.n ∧ m'.u = m.u ∧ m'.a = m.a ∧
+        (∀ i e, m'.β i e = if i < 3 ∧ d ≤ e ∧ e < d + k then f i e else m.β i e) := by
+  intro k
+  induction k with
+  | zero =>
+    intro d m hs _ _
+    refine ⟨m, by simp [betasLoop], hs, rfl, rfl, rfl, ?_⟩
+    intro i e
+    have : ¬ (i < 3 ∧ d ≤ e ∧ e < d + 0) := by omega
+    rw [if_neg this]
+  | succ k ih =>
+    intro d m hs hk hp
+    have hd : d < m.n := by omega
+    have p0 := hp 0 (by omega) d (Nat.le_refl _) (by omega)
+    have p1 := hp 1 (by omega) d (Nat.le_refl _) (by omega)
+    have p2 := hp 2 (by omega) d (Nat.le_refl _) (by omega)
+    let m1 := ((m.setβ 0 d (f 0 d)).setβ 1 d (f 1 d)).setβ 2 d (f 2 d)
+    have hs1 : Sized 3 m1 := sized_setβ (sized_setβ (sized_setβ hs _ _ _) _ _ _) _ _ _
+    have hn1 : m1.n = m.n := rfl
+    obtain ⟨m', hrun, hs', hn', hu', ha', hβ'⟩ := ih (d + 1) m1 hs1 (by rw [hn1]; omega)
+      (fun i hi e he1 he2 => hp i hi e (by omega) (by omega))
+    refine ⟨m', ?_, hs', hn'.trans hn1, hu'.trans rfl, ha'.trans rfl, ?_⟩
+    · rw [List.range'_succ]
+      simp only [List.map_cons, betasLoop, p0, p1, p2, atomically_setBetas hs hd]
+      exact hrun
+    · intro i e
+      rw [hβ' i e]
+      have hm1 : m1.β i e = if i < 3 ∧ e = d then f i d else m.β i e :=
+        β_setBetas hs hd (fun i => f i d) i e
+      by_cases hi : i < 3
+      · by_cases c1 : d + 1 ≤ e ∧ e < d + 1 + k
+        · have c2 : d ≤ e ∧ e < d + (k + 1) := by omega
+          simp [hi, c1, c2]
+        · by_cases c3 : e = d
+          · subst c3
+            have c2 : e ≤ e ∧ e < e + (k + 1) := by omega
+            simp [hi, c1, c2, hm1]
+          · have c2 : ¬ (d ≤ e ∧ e < d + (k + 1)) := by omega
+            simp [hi, c1, c2, hm1, c3]
+      · simp [hi, hm1]
+
+theorem isFree3 (m : Map Val) (d : Nat) :
+    m.isFree 3 d = (decide (m.β 0 d = 0) && decide (m.β 1 d = 0) && decide (m.β 2 d = 0)) := by
+  unfold Map.isFree
+  have : List.range 3 = [0, 1, 2] := by decide
+  rw [this]
+  simp [List.all, Bool.and_assoc]
+
+theorem removeFreeDart_ok {m : Map Val} (h : Sized 3 m) {d : Nat} (hd : d < m.n)
+    (hf : m.isFree 3 d = true) (hu : m.unused d = false) :
+    m.removeFreeDart 3 d = (.ok (), m.setU d true) := by
+  have hok : m.okU d = true := okU_of_sized h hd
+  unfold Map.removeFreeDart atomically removeFreeDartTx
+  simp [hd, hf, hok, hu]
+
+/-- `toks` are numerals denoting `ids` -/
+inductive Parsed : List String → List Nat → Prop
+  | nil : Parsed [] []
+  | cons {t : String} {d : Nat} {ts : List String} {ds : List Nat} :
+      parseU32 t = some d → Parsed ts ds → Parsed (t :: ts) (d :: ds)
+
+theorem parsed_natTok : ∀ (ids : List Nat), (∀ d ∈ ids, d < u32Bound) → Parsed (ids.map natTok) ids
+  | [], _ => .nil
+  | d :: ds, h => .cons (parseU32_natTok (h d (by simp)))
+      (parsed_natTok ds (fun e he => h e (by simp [he])))
+
+theorem parsed_of_all : ∀ (toks : List String), (∀ t ∈ toks, (parseU32 t).isSome = true) →
+    Parsed toks (toks.map fun t => (parseU32 t).getD 0)
+  | [], _ => .nil
+  | t :: ts, h => by
+    have ht := h t (by simp)
+    refine .cons ?_ (parsed_of_all ts (fun e he => h e (by simp [he])))
+    cases hp : parseU32 t with
+    | none => rw [hp] at ht; simp at ht
+    | some v => simp [hp]
+
+theorem unusedLoop_ok : ∀ (toks : List String) (ids : List Nat) (m : Map Val),
+    Parsed toks ids → ids.Nodup → Sized 3 m →
+    (∀ d ∈ ids, d < m.n ∧ m.isFree 3 d = true ∧ m.unused d = false) →
+    ∃ m', unusedLoop toks m = .ok m' ∧ Sized 3 m' ∧ m'.n = m.n ∧ m'.b = m.b ∧ m'.a = m.a ∧
+      (∀ e, m'.unused e = (m.unused e || decide (e ∈ ids))) := by
+  intro toks ids m hf
+  induction hf generalizing m with
+  | nil =>
+    intro _ hs _
+    exact ⟨m, by simp [unusedLoop], hs, rfl, rfl, rfl, by simp⟩
+  | @cons t d ts ds htd _ ih =>
+    intro hnd hs hall
+    obtain ⟨hdn, hdf, hdu⟩ := hall d (by simp)
+    have hnd' := List.nodup_cons.mp hnd
+    let m1 := m.setU d true
+    have hs1 : Sized 3 m1 := sized_setU hs d true
+    have hall1 : ∀ d' ∈ ds, d' < m1.n ∧ m1.isFree 3 d' = true ∧ m1.unused d' = false := by
+      intro d' hd'
+      obtain ⟨a, b, c⟩ := hall d' (by simp [hd'])
+      refine ⟨a, b, ?_⟩
+      show (m.setU d true).unused d' = false
+      rw [Map.unused_setU]
+      have : d ≠ d' := fun e => hnd'.1 (e ▸ hd')
+      simp [this, c]
+    obtain ⟨m', hrun, hs', hn', hb', ha', hu'⟩ := ih m1 hnd'.2 hs1 hall1
+    refine ⟨m', ?_, hs', hn'.trans rfl, hb'.trans rfl, ha'.trans rfl, ?_⟩
+    · simp only [unusedLoop, htd, removeFreeDart_ok hs hdn hdf hdu]
+      exact hrun
+    · intro e
+      rw [hu' e]
+      show ((m.setU d true).unused e || decide (e ∈ ds)) = (m.unused e || decide (e ∈ d :: ds))
+      rw [Map.unused_setU]
+      have hok : m.okU d = true := okU_of_sized hs hdn
+      by_cases he : d = e
+      · subst he; simp [hok]
+      · have : ¬ e = d := fun x => he x.symm
+        simp [he, this]
+
+theorem okA0_of_sized {m : Map Val} (h : Sized 3 m) (h0 : 0 < m.a.size) {d : Nat} (hd : d < m.n) :
+    m.okA 0 d = true := by
+  unfold Map.okA
+  have := h.asz 0 h0
+  simp [h0]; omega
+
+theorem atomically_forceWriteVertex {m : Map Val} (h : Sized 3 m) (h0 : 0 < m.a.size) {d : Nat}
+    (hd : d < m.n) (v : Val) :
+    atomically (forceWriteVertex d v) m = (.ok (m.att 0 d), m.setA 0 d (some v)) := by
+  have hok : m.okA 0 d = true := okA0_of_sized h h0 hd
+  unfold atomically forceWriteVertex
+  simp [hok]
+
+theorem vertexStep_ok {m : Map Val} (h : Sized 3 m) (h0 : 0 < m.a.size) {tid tx ty : String}
+    {d : Nat} {x y : Rat} (hd : d < m.n) (p1 : parseU32 tid = some d) (p2 : parseCoord tx = some x)
+    (p3 : parseCoord ty = some y) :
+    vertexStep [tid, tx, ty] m = .ok (m.setA 0 d (some (.pt x y 0))) := by
+  simp [vertexStep, writeVertex, p1, p2, p3, atomically_forceWriteVertex h h0 hd]
+
+theorem size_a_setA (m : Map Val) (s d : Nat) (v : Option Val) : (m.setA s d v).a.size = m.a.size := by
+  show (wr m.a s (wr (rd m.a s) d v)).size = m.a.size
+  rw [size_wr]
+
+theorem verticesLoop_ok (gid gx gy : Nat → String) (fx fy : Nat → Rat) :
+    ∀ (vs : List Nat) (m : Map Val), Sized 3 m → 0 < m.a.size → vs.Nodup →
+      (∀ v ∈ vs, v < m.n ∧ parseU32 (gid v) = some v ∧ parseCoord (gx v) = some (fx v) ∧
+        parseCoord (gy v) = some (fy v)) →
+      ∃ m', verticesLoop (vs.map fun v => [gid v, gx v, gy v]) m = .ok m' ∧ Sized 3 m' ∧
+        0 < m'.a.size ∧ m'.n = m.n ∧ m'.b = m.b ∧ m'.u = m.u ∧
+        (∀ s e, m'.att s e = if s = 0 ∧ e ∈ vs then some (.pt (fx e) (fy e) 0) else m.att s e) := by
+  intro vs
+  induction vs with
+  | nil =>
+    intro m hs h0 _ _
+    exact ⟨m, by simp [verticesLoop], hs, h0, rfl, rfl, rfl, by simp⟩
+  | cons v vs ih =>
+    intro m hs h0 hnd hall
+    obtain ⟨hv, p1, p2, p3⟩ := hall v (by simp)
+    have hnd' := List.nodup_cons.mp hnd
+    let m1 := m.setA 0 v (some (.pt (fx v) (fy v) 0))
+    have hs1 : Sized 3 m1 := sized_setA hs _ _ _
+    have h01 : 0 < m1.a.size := by rw [size_a_setA]; exact h0
+    obtain ⟨m', hrun, hs', h0', hn', hb', hu', ha'⟩ := ih m1 hs1 h01 hnd'.2
+      (fun w hw => hall w (by simp [hw]))
+    refine ⟨m', ?_, hs', h0', hn'.trans rfl, hb'.trans rfl, hu'.trans rfl, ?_⟩
+    · simp only [List.map_cons, verticesLoop, vertexStep_ok hs h0 hv p1 p2 p3]
+      exact hrun
+    · intro s e
+      rw [ha' s e]
+      have hok : m.okA 0 v = true := okA0_of_sized hs h0 hv
+      show (if s = 0 ∧ e ∈ vs then some (Val.pt (fx e) (fy e) 0)
+        else (m.setA 0 v (some (.pt (fx v) (fy v) 0))).att s e) = _
+      rw [Map.att_setA]
+      by_cases hs0 : s = 0
+      · subst hs0
+        by_cases he : e ∈ vs
+        · simp [he]
+        · by_cases hev : v = e
+          · subst hev; simp [he, hok]
+          · have : ¬ e = v := fun x => hev x.symm
+            simp [he, hev, this]
+      · have : ¬ 0 = s := fun x => hs0 x.symm
+        simp [hs0, this]
+
+/-! ### frame / inversion lemmas (used when success is a hypothesis) -/
+
+theorem unusedLoop_frame : ∀ (toks : List String) (m m' : Map Val), Sized 3 m →
+    unusedLoop toks m = .ok m' →
+    Sized 3 m' ∧ m'.n = m.n ∧ m'.b = m.b ∧ m'.a = m.a ∧
+      (∀ e, m'.unused e = true → m.unused e = true ∨ (e < m.n ∧ m.isFree 3 e = true)) := by
+  intro toks
+  induction toks with
+  | nil =>
+    intro m m' hs h
+    simp [unusedLoop] at h
+    subst h
+    exact ⟨hs, rfl, rfl, rfl, fun e he => .inl he⟩
+  | cons t ts ih =>
+    intro m m' hs h
+    simp only [unusedLoop] at h
+    cases hp : parseU32 t with
+    | none => simp [hp] at h
+    | some d =>
+      simp only [hp] at h
+      by_cases hd : d < m.n
+      · by_cases hf : m.isFree 3 d = true
+        · cases hu : m.unused d with
+          | true =>
+            have hok : m.okU d = true := okU_of_sized hs hd
+            simp [Map.removeFreeDart, hd, hf, atomically, removeFreeDartTx, hok, hu] at h
+          | false =>
+            rw [removeFreeDart_ok hs hd hf hu] at h
+            simp only at h
+            obtain ⟨a, b, c, d', e'⟩ := ih (m.setU d true) m' (sized_setU hs d true) h
+            refine ⟨a, b.trans rfl, c.trans rfl, d'.trans rfl, ?_⟩
+            intro e he
+            rcases e' e he with h1 | h1
+            · rw [Map.unused_setU] at h1
+              by_cases hde : d = e
+              · subst hde; exact .inr ⟨hd, hf⟩
+              · simp [hde] at h1; exact .inl h1
+            · exact .inr h1
+        · simp [Map.removeFreeDart, hd, hf] at h
+      · simp [Map.removeFreeDart, hd] at h
+
+theorem writeVertex_frame {m m' : Map Val} {d : Nat} {v : Val} (hs : Sized 3 m)
+    (h : writeVertex d v m = .ok m') :
+    Sized 3 m' ∧ m'.n = m.n ∧ m'.b = m.b ∧ m'.u = m.u := by
+  unfold writeVertex atomically forceWriteVertex at h
+  by_cases hok : m.okA 0 d = true
+  · simp [hok] at h
+    subst h
+    exact ⟨sized_setA hs _ _ _, rfl, rfl, rfl⟩
+  · simp [hok] at h
+
+theorem vertexStep_frame {l : Line} {m m' : Map Val} (hs : Sized 3 m) (h : vertexStep l m = .ok m') :
+    Sized 3 m' ∧ m'.n = m.n ∧ m'.b = m.b ∧ m'.u = m.u := by
+  unfold vertexStep at h
+  split at h <;> try (simp at h)
+  split at h <;> try (simp at h)
+  split at h <;> try (simp at h)
+  split at h <;> try (simp at h)
+  split at h <;> try (simp at h)
+  split at h <;> try (simp at h)
+  split at h <;> try (simp at h)
+  exact writeVertex_frame hs h
+
+theorem verticesLoop_frame : ∀ (ls : List Line) (m m' : Map Val), Sized 3 m →
+    verticesLoop ls m = .ok m' → Sized 3 m' ∧ m'.n = m.n ∧ m'.b = m.b ∧ m'.u = m.u := by
+  intro ls
+  induction ls with
+  | nil =>
+    intro m m' hs h
+    simp [verticesLoop] at h
+    subst h
+    exact ⟨hs, rfl, rfl, rfl⟩
+  | cons l ls ih =>
+    intro m m' hs h
+    simp only [verticesLoop] at h
+    cases hv : vertexStep l m with
+    | ok m1 =>
+      rw [hv] at h
+      simp only at h
+      obtain ⟨a, b, c, d⟩ := vertexStep_frame hs hv
+      obtain ⟨a', b', c', d'⟩ := ih m1 m' a h
+      exact ⟨a', b'.trans b, c'.trans c, d'.trans d⟩
+    | err e => rw [hv] at h; simp at h
+    | retry => rw [hv] at h; simp at h
+    | panic => rw [hv] at h; simp at h
+
+/-! ## D. the section parser on a serialization -/
+
+/-- a content line as the serializer writes them: non-empty, no `#` anywhere, not starting
+    with `[` -/
+structure DataLine (l : Line) : Prop where
+  ne : l ≠ []
+  noHash : ∀ t ∈ l, NoHash t
+  noBracket : (l.head?.bind fun t => t.toList.head?) ≠ some '['
+
+theorem stripComment_noHash : ∀ (l : Line), (∀ t ∈ l, NoHash t) → stripComment l = l
+  | [], _ => rfl
+  | t :: ts, h => by
+    have ht : t.toList.contains '#' = false := h t (by simp)
+    simp only [stripComment, ht]
+    rw [stripComment_noHash ts (fun e he => h e (by simp [he]))]
+    simp
+
+theorem head_ne_hash_of_noHash {t : String} (h : NoHash t) : (t.toList.head? = some '#') = False := by
+  apply eq_false
+  intro hh
+  unfold NoHash at h
+  cases hl : t.toList with
+  | nil => rw [hl] at hh; simp at hh
+  | cons c r =>
+    rw [hl] at hh h
+    simp at hh
+    subst hh
+    simp at h
+
+theorem isHeader_false_of_dataLine {l : Line} (h : DataLine l) : isHeader l = false := by
+  cases l with
+  | nil => rfl
+  | cons t ts =>
+    have := h.noBracket
+    simp only [List.head?_cons, Option.bind_some] at this
+    simp [isHeader, this]
+
+theorem stepLine_data {l : Line} (h : DataLine l) (secs : Secs) (s : Sec) :
+    stepLine (secs, some s) l = .ok (secs.put s ((secs.sel s).getD [] ++ [l]), some s) := by
+  cases l with
+  | nil => exact absurd rfl h.ne
+  | cons t ts =>
+    have h1 := head_ne_hash_of_noHash (h.noHash t (by simp))
+    have h2 := isHeader_false_of_dataLine h
+    have h3 := stripComment_noHash (t :: ts) h.noHash
+    simp only [stepLine, h1, h2, h3]
+    simp
+
+theorem parseLines_cons_ok {l : Line} {ls : List Line} {st st' : Secs × Option Sec}
+    (h : stepLine st l = .ok st') : parseLines (l :: ls) st = parseLines ls st' := by
+  simp only [parseLines, h]
+
+theorem put_sel_self (secs : Secs) (s : Sec) (old : List Line) (h : secs.sel s = some old) :
+    secs.put s old = secs := by
+  cases s <;> cases secs <;> simp_all [Secs.put, Secs.sel]
+
+theorem sel_put_same (secs : Secs) (s : Sec) (v : List Line) : (secs.put s v).sel s = some v := by
+  cases s <;> rfl
+
+theorem put_put (secs : Secs) (s : Sec) (v w : List Line) : (secs.put s v).put s w = secs.put s w := by
+  cases s <;> rfl
+
+theorem parseLines_data : ∀ (ls : List Line) (secs : Secs) (s : Sec) (old : List Line),
+    (∀ l ∈ ls, DataLine l) → secs.sel s = some old →
+    parseLines ls (secs, some s) = .ok (secs.put s (old ++ ls))
+  | [], secs, s, old, _, h => by
+    simp only [parseLines, List.append_nil]
+    rw [put_sel_self secs s old h]
+  | l :: ls, secs, s, old, hd, h => by
+    rw [parseLines_cons_ok (stepLine_data (hd l (by simp)) secs s)]
+    rw [parseLines_data ls _ s (old ++ [l]) (fun e he => hd e (by simp [he])) (by rw [h]; exact sel_put_same _ _ _)]
+    rw [h, put_put]
+    simp
+
+theorem dataLine_betaLine (m : Map Val) (i : Nat) (hn : 0 < m.n) : DataLine (betaLine m i) := by
+  have hr : List.range m.n = 0 :: (List.range' 1 (m.n - 1)) := by
+    rw [List.range_eq_range']
+    have : m.n = (m.n - 1) + 1 := by omega
+    rw (occs := [1]) [this, List.range'_succ]
+  refine ⟨?_, ?_, ?_⟩
+  · unfold betaLine; rw [hr]; simp
+  · intro t ht
+    unfold betaLine at ht
+    obtain ⟨d, _, rfl⟩ := List.mem_map.mp ht
+    exact natTok_noHash _
+  · unfold betaLine; rw [hr]
+    simp only [List.map_cons, List.head?_cons, Option.bind_some]
+    obtain ⟨c, hc, hd⟩ := natTok_head (m.β i 0)
+    rw [hc]
+    intro e
+    injection e with e
+    subst e
+    simp [Char.isDigit] at hd
+
+theorem dataLine_numerals (ids : List Nat) (h : ids ≠ []) : DataLine (ids.map natTok) := by
+  cases ids with
+  | nil => exact absurd rfl h
+  | cons d ds =>
+    refine ⟨by simp, ?_, ?_⟩
+    · intro t ht
+      obtain ⟨e, _, rfl⟩ := List.mem_map.mp ht
+      exact natTok_noHash _
+    · simp only [List.map_cons, List.head?_cons, Option.bind_some]
+      obtain ⟨c, hc, hd⟩ := natTok_head d
+      rw [hc]
+      intro e
+      injection e with e
+      subst e
+      simp [Char.isDigit] at hd
+
+/-- version token: no `#`, does not start with `[` -/
+structure PlainVer (ver : String) : Prop where
+  noHash : NoHash ver
+  noBracket : ver.toList.head? ≠ some '['
+
+theorem dataLine_meta {ver : String} (hv : PlainVer ver) (k : Nat) : DataLine [ver, "2", natTok k] := by
+  refine ⟨by simp, ?_, ?_⟩
+  · intro t ht
+    simp only [List.mem_cons, List.not_mem_nil, or_false] at ht
+    rcases ht with rfl | rfl | rfl
+    · exact hv.noHash
+    · show ("2".toList.contains '#') = false
+      decide
+    · exact natTok_noHash _
+  · simpa using hv.noBracket
+
+theorem stepLine_blank (st : Secs × Option Sec) : stepLine st [] = .ok st := rfl
+
+theorem stepLine_header {t : String} {s : Sec} (h1 : (t.toList.head? = some '#') = False)
+    (h2 : isHeader [t] = true) (h3 : secOfName (sectionName [t]) = some s) (secs : Secs)
+    (cur : Option Sec) (h4 : secs.sel s = none) :
+    stepLine (secs, cur) [t] = .ok (secs.put s [], some s) := by
+  simp only [stepLine, h1, h2, h3, h4]
+  simp
+
+/-- `CMapFile::try_from` on the lines `serialize` writes (any data lines `V` in the last section) -/
+theorem parseFile_serialize {ver : String} (hv : PlainVer ver) (m : Map Val) (hn : 0 < m.n)
+    (hnd : m.n - 1 < usizeBound) (V : List Line) (hV : ∀ l ∈ V, DataLine l) :
+    parseFile ([["[META]"], [ver, "2", natTok (m.n - 1)], [], ["[BETAS]"], betaLine m 0,
+        betaLine m 1, betaLine m 2, [], ["[UNUSED]"], unusedLine m, [], ["[VERTICES]"]] ++ V) =
+      .ok { version := ver, dim := 2, nd := m.n - 1,
+            betas := [betaLine m 0, betaLine m 1, betaLine m 2],
+            unused := some (if unusedLine m = [] then [] else [unusedLine m]),
+            vertices := some V } := by
+  -- the twelve fixed lines, one step each
+  let s0 : Secs := {}
+  have e1 : stepLine (s0, none) ["[META]"] = .ok (s0.put .smeta [], some .smeta) :=
+    stepLine_header (by decide) (by decide) (by decide) _ _ rfl
+  let s1 := s0.put .smeta []
+  have e2 := stepLine_data (dataLine_meta hv (m.n - 1)) s1 .smeta
+  let s2 := s1.put .smeta ((s1.sel .smeta).getD [] ++ [[ver, "2", natTok (m.n - 1)]])
+  have e3 : stepLine (s2, some .smeta) ["[BETAS]"] = .ok (s2.put .sbetas [], some .sbetas) :=
+    stepLine_header (by decide) (by decide) (by decide) _ _ rfl
+  let s3 := s2.put .sbetas []
+  have e4 := stepLine_data (dataLine_betaLine m 0 hn) s3 .sbetas
+  let s4 := s3.put .sbetas ((s3.sel .sbetas).getD [] ++ [betaLine m 0])
+  have e5 := stepLine_data (dataLine_betaLine m 1 hn) s4 .sbetas
+  let s5 := s4.put .sbetas ((s4.sel .sbetas).getD [] ++ [betaLine m 1])
+  have e6 := stepLine_data (dataLine_betaLine m 2 hn) s5 .sbetas
+  let s6 := s5.put .sbetas ((s5.sel .sbetas).getD [] ++ [betaLine m 2])
+  have e7 : stepLine (s6, some .sbetas) ["[UNUSED]"] = .ok (s6.put .sunused [], some .sunused) :=
+    stepLine_header (by decide) (by decide) (by decide) _ _ rfl
+  let s7 := s6.put .sunused []
+  let s8 : Secs := if unusedLine m = [] then s7 else s7.put .sunused [unusedLine m]
+  have e8 : stepLine (s7, some .sunused) (unusedLine m) = .ok (s8, some .sunused) := by
+    by_cases hU : unusedLine m = []
+    · simp only [s8, hU, if_true]; rfl
+    · simp only [s8, hU, if_false]
+      have hd : DataLine (unusedLine m) := by
+        unfold unusedLine at hU ⊢
+        exact dataLine_numerals _ (by intro e; rw [e] at hU; exact hU rfl)
+      rw [stepLine_data hd s7 .sunused]
+      rfl
+  have e9 : stepLine (s8, some .sunused) ["[VERTICES]"] = .ok (s8.put .sverts [], some .sverts) := by
+    refine stepLine_header (by decide) (by decide) (by decide) _ _ ?_
+    simp only [s8]
+    split <;> rfl
+  let s9 := s8.put .sverts []
+  have e10 : parseLines V (s9, some .sverts) = .ok (s9.put .sverts ([] ++ V)) :=
+    parseLines_data V s9 .sverts [] hV (sel_put_same _ _ _)
+  unfold parseFile
+  simp only [List.cons_append, List.nil_append]
+  rw [parseLines_cons_ok e1, parseLines_cons_ok e2, parseLines_cons_ok (stepLine_blank _),
+    parseLines_cons_ok e3, parseLines_cons_ok e4, parseLines_cons_ok e5, parseLines_cons_ok e6,
+    parseLines_cons_ok (stepLine_blank _), parseLines_cons_ok e7, parseLines_cons_ok e8,
+    parseLines_cons_ok (stepLine_blank _), parseLines_cons_ok e9, e10]
+  have hm : parseUsize (natTok (m.n - 1)) = some (m.n - 1) := parseUsize_natTok hnd
+  have h2 : parseUsize "2" = some 2 := by decide
+  by_cases hU : unusedLine m = []
+  · simp [s9, s8, s7, s6, s5, s4, s3, s2, s1, s0, hU, Secs.put, Secs.sel, parseMeta, hm, h2]
+  · simp [s9, s8, s7, s6, s5, s4, s3, s2, s1, s0, hU, Secs.put, Secs.sel, parseMeta, hm, h2]
 
 end CmapText
 end HC
